@@ -37,6 +37,7 @@ type Record struct {
 	ExposureTime, FNumber, ApertureValue, FocalLength *[2]uint32
 	ISO                                               *uint32
 	ISOLong                                           bool
+	ISOSecond                                         *uint16 // ISOSpeedRatings has count "any": a second SHORT in the slot (the reported speed is the first)
 	Bias                                              *[2]int32
 	Program, Mode, Metering, Flash                    *uint16
 	FL35                                              *uint16
@@ -304,6 +305,10 @@ func GenRecord(rt *rapid.T, o Options) *Record {
 		}
 		v := rapid.Uint32Range(1, max).Draw(rt, "iso")
 		r.ISO = &v
+		if !r.ISOLong && Chance(rt, "iso.second?", 0.25) {
+			s2 := uint16(rapid.SampledFrom([]int{1, 100, 200, 400, 25600, 65535}).Draw(rt, "iso.second"))
+			r.ISOSecond = &s2
+		}
 	}
 	if Chance(rt, "bias?", p) {
 		v := [2]int32{int32(rapid.IntRange(-127, 127).Draw(rt, "bias.n")), int32(rapid.IntRange(1, 127).Draw(rt, "bias.d"))}
@@ -522,7 +527,11 @@ func BuildDirs(r *Record) (ifd0, exif, gps *Dir) {
 	addR(exif, 0x829a, r.ExposureTime)
 	addR(exif, 0x829d, r.FNumber)
 	addH(exif, 0x8822, r.Program)
-	addU(exif, 0x8827, r.ISO, r.ISOLong)
+	if r.ISO != nil && !r.ISOLong && r.ISOSecond != nil {
+		exif.Entries = append(exif.Entries, Entry{Tag: 0x8827, V: Short(uint16(*r.ISO), *r.ISOSecond)})
+	} else {
+		addU(exif, 0x8827, r.ISO, r.ISOLong)
+	}
 	if r.Original.Date != nil {
 		s := r.Original.Date.String()
 		addS(exif, 0x9003, &s)
